@@ -845,6 +845,46 @@ namespace
         }
     };
 
+    // ---------- activity changed at run time: after every evaluation the second input (pair) is made passive when the
+    // first element holds an odd value, active again when it is even (spec: Vocab!ActiveInsS) ----------
+    struct VTog
+    {
+        static constexpr auto name = "v_tog";
+        static void eval(Scalar<"id", Int> id, In<"a", TS<Int>, InputValidity::Unchecked> a, In<"b", TS<Int>, InputValidity::Unchecked> b,
+                         NodeView self, DateTime now, Out<TS<Int>> out)
+        {
+            FnLog log(id.value(), self, now);
+            log.ins({in_rec(a), in_rec(b)});
+            const long v = (a.valid() ? static_cast<long>(a.value()) : 0) + (b.valid() ? static_cast<long>(b.value()) : 0);
+            out.set(Int{v});
+            const bool odd = a.valid() && (static_cast<long>(a.value()) % 2 != 0);
+            if (odd && b.active()) { b.make_passive(); }
+            if (!odd && !b.active()) { b.make_active(); }
+            log.out(v).emit();
+        }
+    };
+    struct VLTog
+    {
+        static constexpr auto name = "v_ltog";
+        static void eval(Scalar<"id", Int> id, In<"xs", L2, InputValidity::Unchecked> xs, In<"ys", L2, InputValidity::Unchecked> ys,
+                         NodeView self, DateTime now, Out<TS<Int>> out)
+        {
+            FnLog log(id.value(), self, now);
+            auto  a = xs[0];
+            auto  b = xs[1];
+            auto  c = ys[0];
+            auto  d = ys[1];
+            log.ins({in_rec(a), in_rec(b), in_rec(c), in_rec(d)});
+            auto       val = [](auto &x) { return x.valid() ? static_cast<long>(x.value()) : 0L; };
+            const long v   = val(a) + val(b) + val(c) + val(d);
+            out.set(Int{v});
+            const bool odd = a.valid() && (static_cast<long>(a.value()) % 2 != 0);
+            if (odd && ys.active()) { ys.make_passive(); }
+            if (!odd && !ys.active()) { ys.make_active(); }
+            log.out(v).emit();
+        }
+    };
+
     // one node, one list output, two independently ticking elements (references to positions of the same output)
     struct VPack2
     {
@@ -1083,6 +1123,12 @@ namespace
                 else if (pp == 2 && mm == 1) { mk.template operator()<2, 1>(); }
                 else if (pp == 2 && mm == 2) { mk.template operator()<2, 2>(); }
                 else { throw std::logic_error("hgv: unsupported window"); }
+            }
+            else if (kind == "tog") { env.ports.emplace(id, wire<VTog>(w, sid, in.at(0), in.at(1))); }
+            else if (kind == "ltog")
+            {
+                using LS = WiringStructuralSourceArg;
+                env.ports.emplace(id, wire<VLTog>(w, sid, LS{in.at(0).erased(), in.at(1).erased()}, LS{in.at(2).erased(), in.at(3).erased()}));
             }
             else if (kind == "sum3") { env.ports.emplace(id, wire<VSum3>(w, sid, in.at(0), in.at(1), in.at(2))); }
             else if (kind == "sumu") { env.ports.emplace(id, wire<VSumU>(w, sid, in.at(0), in.at(1))); }
